@@ -38,6 +38,7 @@ import (
 	"net/http"
 	"net/http/httptest"
 	"net/url"
+	"os"
 	"regexp"
 	"strconv"
 	"strings"
@@ -339,6 +340,23 @@ func (t *macTab) addFields(key, uri, ts string) {
 }
 
 // ---------------------------------------------------------------------------------------------
+// time guard: the code under test has real-time limits of its own (the providers' http.Client gives
+// up after 2 s dial / 5 s total, the proxy's back-channel client likewise).  In-process steps take
+// milliseconds; a step that took longer than [stepGuard] ran on a stalled machine, its observation
+// may contain a client timeout, so the whole history is discarded and re-run with the same random
+// choices (see runGuarded).  This is trouble in the harness's own infrastructure, not an observation.
+
+const stepGuard = 1200 * time.Millisecond
+
+var slowStep bool
+
+func guard(t0 time.Time) {
+	if time.Since(t0) > stepGuard {
+		slowStep = true
+	}
+}
+
+// ---------------------------------------------------------------------------------------------
 // steps
 
 type history struct {
@@ -406,8 +424,10 @@ func (h *history) proxyStep(pw *proxyWorld, host string, originForm bool, method
 	}
 	raw += "\r\n"
 	req := rawRequest(raw)
-	clock := time.Now().Unix()
+	t0 := time.Now()
+	clock := t0.Unix()
 	rec := pw.W.Do(req)
+	guard(t0)
 	eff, _ := c.CookieEffect(rec, proxyCookie)
 	loc := rec.Header().Get("Location")
 	obsBase, params := "", []kv{}
@@ -454,25 +474,25 @@ func (s asess) coq() string {
 }
 
 type authReq struct {
-	Slug        string
-	Method      string // GET | POST | PUT | DELETE | HEAD
-	URI, Sig    string
-	TS          string
-	InBody      bool   // POST: fields in the form body instead of the query
-	Decoy       bool   // POST with body: different (invalid) values in the query as well — the body wins
-	CookieKind  string // none | junk | foreign | sealed | expired | wrongname
-	Sess        asess
-	Out         outcome
-	Link        *int64 // see ao_link
+	Slug       string
+	Method     string // GET | POST | PUT | DELETE | HEAD
+	URI, Sig   string
+	TS         string
+	InBody     bool   // POST: fields in the form body instead of the query
+	Decoy      bool   // POST with body: different (invalid) values in the query as well — the body wins
+	CookieKind string // none | junk | foreign | sealed | expired | wrongname
+	Sess       asess
+	Out        outcome
+	Link       *int64 // see ao_link
 }
 
 type authObs struct {
-	Kind                     string // gate | redirect | page
-	Status                   int
-	Loc                      string
-	Email, Redir, Sig, TS    string
-	Cleared                  bool
-	Revoked                  []string
+	Kind                  string // gate | redirect | page
+	Status                int
+	Loc                   string
+	Email, Redir, Sig, TS string
+	Cleared               bool
+	Revoked               []string
 }
 
 var (
@@ -556,9 +576,11 @@ func (h *history) authStep(aw *authWorld, f *idp, rq authReq) authObs {
 	_, perr := url.Parse(uri)
 	inDomain := auth.VerifC19InDomain(aw.mux, rq.Slug, uri)
 	f.set(rq.Out.Ans)
-	clock := time.Now().Unix()
+	t0 := time.Now()
+	clock := t0.Unix()
 	rec := httptest.NewRecorder()
 	aw.mux.ServeHTTP(rec, req)
+	guard(t0)
 	revoked := f.take()
 	eff, _ := c.CookieEffect(rec, name)
 	bodyStr := rec.Body.String()
@@ -601,8 +623,10 @@ func (h *history) authStep(aw *authWorld, f *idp, rq authReq) authObs {
 // sigStep calls the real validSignature directly.
 func (h *history) sigStep(secret, uri, sig, ts string) bool {
 	_, perr := url.Parse(uri)
-	now := time.Now().Unix()
+	t0 := time.Now()
+	now := t0.Unix()
 	obs := auth.VerifC19ValidSignature(uri, sig, ts, secret)
+	guard(t0)
 	h.tab.addFields(secret, uri, ts)
 	h.steps = append(h.steps, fmt.Sprintf("SSig %s %s %s %s %s %s %s", c.Str(secret), c.Str(uri), c.Str(sig), c.Str(ts), c.Bool(perr == nil), c.Z(now), c.Bool(obs)))
 	h.js = append(h.js, map[string]interface{}{"step": "valid_signature", "uri": uri, "sig": sig, "ts": ts, "accepted": obs})
@@ -613,7 +637,7 @@ func (h *history) sigStep(secret, uri, sig, ts string) bool {
 
 type psess struct {
 	Slug, Email, Access, Refresh, Upstream string
-	RefreshDL, LifetimeDL, ValidDL       int64 // seconds on the virtual clock
+	RefreshDL, LifetimeDL, ValidDL         int64 // seconds on the virtual clock
 }
 
 func (s psess) coq() string {
@@ -642,7 +666,9 @@ func (h *history) reuseStep(pw *proxyWorld, host string, s psess, vnow int64, ba
 		Profile:  c.Answer{Status: 200, Body: c.JSONBody(map[string]interface{}{"email": s.Email, "groups": []string{}})},
 	})
 	pw.B.Take()
+	t0 := time.Now()
 	rec := pw.W.Do(req)
+	guard(t0)
 	served := len(pw.B.Take()) >= 1
 	calls := pw.W.Auth.TakeCalls()
 	loc := rec.Header().Get("Location")
@@ -956,8 +982,8 @@ func (e *env) attacks(i int) c.Case {
 // ---------------------------------------------------------------------------------------------
 // corpus: hand-written boundary histories, always run first
 
-func (e *env) corpus() []c.Case {
-	var out []c.Case
+func (e *env) corpus() []func() c.Case {
+	var out []func() c.Case
 	s := asess{Email: "alice@example.com", Access: "at-corpus", Refresh: "rt-corpus"}
 	for _, pw := range e.proxies {
 		for _, origin := range []bool{true, false} {
@@ -966,32 +992,34 @@ func (e *env) corpus() []c.Case {
 					if strings.Contains(host, ".rx.") && kind != "ok" && kind != "503" {
 						continue
 					}
-					h := newHistory()
-					po := h.proxyStep(pw, host, origin, "GET", 2)
-					if !po.OK {
-						out = append(out, h.emit())
-						continue
-					}
-					uri, sig, ts := get(po.Params, "redirect_uri"), get(po.Params, "sig"), get(po.Params, "ts")
-					oc := mkOutcome(kind, pw.slug)
-					g := h.authStep(e.auths[0], e.f, authReq{Slug: pw.slug, Method: "GET", URI: uri, Sig: sig, TS: ts, CookieKind: "sealed", Sess: s, Out: oc, Link: i64(0)})
-					post := authReq{Slug: pw.slug, Method: "POST", URI: uri, Sig: sig, TS: ts, InBody: true, CookieKind: "sealed", Sess: s, Out: oc, Link: i64(0)}
-					if g.Kind == "page" {
-						post.URI, post.Sig, post.TS = g.Redir, g.Sig, g.TS
-					}
-					p := h.authStep(e.auths[0], e.f, post)
-					revoked := len(p.Revoked) > 0 && oc.revokes(pw.slug)
-					ba := backAns{201, 200}
-					if revoked {
-						ba = backAns{401, 401}
-					}
-					vnow := int64(100000)
-					// not yet due / validation due / refresh due
-					for _, dl := range [][2]int64{{120, 900}, {-60, 900}, {-60, -60}} {
-						h.reuseStep(pw, host, psess{Slug: pw.slug, Email: s.Email, Access: s.Access, Refresh: s.Refresh, Upstream: host,
-							ValidDL: vnow + dl[0], RefreshDL: vnow + dl[1], LifetimeDL: vnow + 7200}, vnow, ba)
-					}
-					out = append(out, h.emit())
+					pw, origin, host, kind := pw, origin, host, kind
+					out = append(out, func() c.Case {
+						h := newHistory()
+						po := h.proxyStep(pw, host, origin, "GET", 2)
+						if !po.OK {
+							return h.emit()
+						}
+						uri, sig, ts := get(po.Params, "redirect_uri"), get(po.Params, "sig"), get(po.Params, "ts")
+						oc := mkOutcome(kind, pw.slug)
+						g := h.authStep(e.auths[0], e.f, authReq{Slug: pw.slug, Method: "GET", URI: uri, Sig: sig, TS: ts, CookieKind: "sealed", Sess: s, Out: oc, Link: i64(0)})
+						post := authReq{Slug: pw.slug, Method: "POST", URI: uri, Sig: sig, TS: ts, InBody: true, CookieKind: "sealed", Sess: s, Out: oc, Link: i64(0)}
+						if g.Kind == "page" {
+							post.URI, post.Sig, post.TS = g.Redir, g.Sig, g.TS
+						}
+						p := h.authStep(e.auths[0], e.f, post)
+						revoked := len(p.Revoked) > 0 && oc.revokes(pw.slug)
+						ba := backAns{201, 200}
+						if revoked {
+							ba = backAns{401, 401}
+						}
+						vnow := int64(100000)
+						// not yet due / validation due / refresh due
+						for _, dl := range [][2]int64{{120, 900}, {-60, 900}, {-60, -60}} {
+							h.reuseStep(pw, host, psess{Slug: pw.slug, Email: s.Email, Access: s.Access, Refresh: s.Refresh, Upstream: host,
+								ValidDL: vnow + dl[0], RefreshDL: vnow + dl[1], LifetimeDL: vnow + 7200}, vnow, ba)
+						}
+						return h.emit()
+					})
 				}
 			}
 		}
@@ -1001,45 +1029,74 @@ func (e *env) corpus() []c.Case {
 	for _, aw := range e.auths {
 		for _, ck := range []string{"none", "junk", "foreign", "sealed", "expired", "wrongname"} {
 			for _, d := range []int64{0, 240, 360, -3600} {
-				h := newHistory()
-				po := h.proxyStep(pw, hostIn1, true, "GET", 0)
-				uri := get(po.Params, "redirect_uri")
-				ts := po.TS - d
-				sig := sign(proxySecret, uri, ts)
-				h.tab.add(proxySecret, uri+fmt.Sprint(ts))
-				if d == 0 {
-					sig = get(po.Params, "sig")
-				}
-				for _, m := range []string{"GET", "POST", "PUT"} {
-					h.authStep(aw, e.f, authReq{Slug: pw.slug, Method: m, URI: uri, Sig: sig, TS: fmt.Sprint(ts), InBody: m == "POST", CookieKind: ck, Sess: s,
-						Out: mkOutcome("ok", pw.slug), Link: i64(d)})
-				}
-				out = append(out, h.emit())
+				aw, ck, d := aw, ck, d
+				out = append(out, func() c.Case {
+					h := newHistory()
+					po := h.proxyStep(pw, hostIn1, true, "GET", 0)
+					uri := get(po.Params, "redirect_uri")
+					ts := po.TS - d
+					sig := sign(proxySecret, uri, ts)
+					h.tab.add(proxySecret, uri+fmt.Sprint(ts))
+					if d == 0 {
+						sig = get(po.Params, "sig")
+					}
+					for _, m := range []string{"GET", "POST", "PUT"} {
+						h.authStep(aw, e.f, authReq{Slug: pw.slug, Method: m, URI: uri, Sig: sig, TS: fmt.Sprint(ts), InBody: m == "POST", CookieKind: ck, Sess: s,
+							Out: mkOutcome("ok", pw.slug), Link: i64(d)})
+					}
+					return h.emit()
+				})
 			}
 		}
 	}
 	// string shapes of the signature check
-	h := newHistory()
-	now := time.Now().Unix()
-	uri := "https://app.proxy.test/"
-	for _, kind := range sigForms {
-		for _, age := range []int64{0, 240, 360} {
-			h.sigStep(proxySecret, uri, mutateSig(kind, e.r, proxySecret, uri, now-age), fmt.Sprint(now-age))
-		}
-	}
-	for _, tf := range tsForms {
-		ts := tf(now)
-		if tsSane(ts) {
-			// signed over the canonical decimal the verifier re-prints, if the string parses at all
-			n, err := strconv.ParseInt(ts, 10, 64)
-			if err != nil {
-				n = now
+	out = append(out, func() c.Case {
+		h := newHistory()
+		now := time.Now().Unix()
+		uri := "https://app.proxy.test/"
+		for _, kind := range sigForms {
+			for _, age := range []int64{0, 240, 360} {
+				h.sigStep(proxySecret, uri, mutateSig(kind, e.r, proxySecret, uri, now-age), fmt.Sprint(now-age))
 			}
-			h.sigStep(proxySecret, uri, sign(proxySecret, uri, n), ts)
+		}
+		for _, tf := range tsForms {
+			ts := tf(now)
+			if tsSane(ts) {
+				// signed over the canonical decimal the verifier re-prints, if the string parses at all
+				n, err := strconv.ParseInt(ts, 10, 64)
+				if err != nil {
+					n = now
+				}
+				h.sigStep(proxySecret, uri, sign(proxySecret, uri, n), ts)
+			}
+		}
+		return h.emit()
+	})
+	return out
+}
+
+// runGuarded builds one history; if a step ran into the time guard the history is rebuilt with the
+// same random choices (up to 5 attempts, then exit 3 = harness infrastructure trouble).
+func (e *env) runGuarded(master *c.Rng, build func() c.Case) c.Case {
+	seed := master.Int63()
+	for attempt := 0; ; attempt++ {
+		e.r = c.NewRng(seed)
+		slowStep = false
+		cs := build()
+		if !slowStep {
+			return cs
+		}
+		if attempt >= 4 {
+			fmt.Fprintln(os.Stderr, "harness error: steps keep exceeding the time guard (machine stalled); no observation was used")
+			os.Exit(3)
+		}
+		time.Sleep(time.Duration(500*(attempt+1)) * time.Millisecond)
+		e.f.take() // drain whatever arrived late
+		for _, pw := range e.proxies {
+			pw.W.Auth.TakeCalls()
+			pw.B.Take()
 		}
 	}
-	out = append(out, h.emit())
-	return out
 }
 
 func main() {
@@ -1072,15 +1129,19 @@ func main() {
 			e.proxies = append(e.proxies, buildProxy(fa, dir, slug, secure))
 		}
 	}
-	cases := e.corpus()
+	var cases []c.Case
+	for _, build := range e.corpus() {
+		cases = append(cases, e.runGuarded(r, build))
+	}
 	for i := 0; i < a.N; i++ {
+		i := i
 		switch {
 		case i%10 < 6:
-			cases = append(cases, e.flow(i))
+			cases = append(cases, e.runGuarded(r, func() c.Case { return e.flow(i) }))
 		case i%10 < 8:
-			cases = append(cases, e.attacks(i))
+			cases = append(cases, e.runGuarded(r, func() c.Case { return e.attacks(i) }))
 		default:
-			cases = append(cases, e.sigs(i))
+			cases = append(cases, e.runGuarded(r, func() c.Case { return e.sigs(i) }))
 		}
 	}
 	c.Must(c.WriteShards(a.Out, "Corr_C19", cases, a.Shard))
